@@ -58,7 +58,7 @@ func checkC12(ctx *Ctx) {
 	defer os.RemoveAll(root)
 	bin := filepath.Join(root, "vharness-race")
 	b := exec.Command("go", "build", "-race", "-tags", "verif", "-o", bin, ".")
-	b.Dir = "/verif/harness"
+	b.Dir = harnessDir()
 	b.Env = append(os.Environ(), "GOFLAGS=-mod=mod", "GOPROXY=off", "GOSUMDB=off", "GOTOOLCHAIN=local")
 	if out, err := b.CombinedOutput(); err != nil {
 		ctx.Res.Disagree(Violation{What: "cannot build the race-detector binary: " + tail(string(out)), Witness: nil})
